@@ -67,6 +67,7 @@ def histories_from_dump(ctx, cfgtext, what):
             pst = by_hist.get(json.dumps(h[:i], sort_keys=True))
             exp.append(_docs_list(pst["docs"]) if pst else None)
         out.append((h, exp))
+    out.sort(key=lambda x: json.dumps(x[0], sort_keys=True))     # TLC's dump order depends on worker scheduling
     return out, len(states)
 
 
